@@ -675,12 +675,19 @@ func (ex *Exec) havoc(st *State, ws *WriteSet, why string, fr *Frame) {
 		st.wm = nw
 	}
 	if ws.all {
+		ws.dropTouchedExceptions()
 		ex.warn("havoc of the whole heap at %s: %s", why, ws.why)
 		old := st.heap
 		st.heap = newHeap(st.wm)
 		if len(ws.except) > 0 {
 			st.heap.base.except = ws.except
 			st.heap.base.exceptParent = old
+		}
+		for k := range ws.keys {
+			if srt, ok := keySortReg[k]; ok {
+				st.heap.m[k] = Fresh(k+"."+why, srt)
+				regHeapConst(st.heap.m[k], k, st.wm)
+			}
 		}
 	} else {
 		for k := range ws.keys {
